@@ -144,10 +144,20 @@ def run_case(case, ctx):
     root = ctx.scratch / f"c13-{case['k']}"
     try:
         unreadable = trees.build(recipe, root, ctx.state["styles"])
+        meson = case["k"] % 4 == 2
+        if meson:
+            # defective files inside a Meson subproject: covered for lint *and* for lint-file once the option is given
+            sp = root / "subprojects" / "lib é x"
+            (sp / "deep").mkdir(parents=True)
+            (sp / "nothing here.c").write_text("int a;\n")
+            (sp / "deep" / "only cop.c").write_text("// SPDX-FileCopyrightText: 2011 Sub\nint b;\n")
+            (sp / "deep" / "missing text.c").write_text("// SPDX-FileCopyrightText: 2011 Sub\n// SPDX-License-Identifier: LicenseRef-nowhere\nint c;\n")
+        ctx.state["meson_opt"] = ["--include-meson-subprojects"] if meson else []
         lic_paths = {"LICENSES/" + x["name"]: x["id"] for x in recipe["licenses"]}
         FS.fail_open = {p: eacces for p in unreadable}
         FS.begin()
         try:
+            MESON[0] = ctx.state["meson_opt"]
             check_formats(res, recipe, root, lic_paths, rng, case)
         finally:
             FS.end()
@@ -161,9 +171,13 @@ def run_case(case, ctx):
     return res.out()
 
 
+MESON = [[]]
+
+
 def check_formats(res, recipe, root, lic_paths, rng, case):
     root = str(root)
-    base = ["--no-multiprocessing", "--root", root]
+    base = ["--no-multiprocessing", "--root", root] + rng.choice([[], ["--include-submodules"]]) if False else ["--no-multiprocessing", "--root", root]
+    base = base + MESON[0]
     runs = {}
     for fmt in ("--json", "--plain", "--lines", "--quiet", None):
         args = base + ["lint"] + ([fmt] if fmt else [])
@@ -273,7 +287,7 @@ def check_formats(res, recipe, root, lic_paths, rng, case):
             ap = os.path.join(root, p)
             args_paths.append(ap if rng.random() < 0.5 else os.path.relpath(ap, cwd))
         rng.shuffle(args_paths)
-        glob_args = ["--no-multiprocessing"] + (["--root", root] if where == "outside" or rng.random() < 0.5 else [])
+        glob_args = ["--no-multiprocessing"] + MESON[0] + (["--root", root] if where == "outside" or rng.random() < 0.5 else [])
         r = run_cli(glob_args + ["lint-file"] + args_paths, cwd=cwd)
         res.n += 1
         if r.escaped:
